@@ -12,8 +12,9 @@ import json, os, re, subprocess, sys
 from pathlib import Path
 
 V = Path(__file__).resolve().parent.parent
-WORK = V / ".build" / "c17lift"
-OUT = V / "harness" / "src" / "gen_c17.rs"
+WORK = Path(os.environ.get("VERIF_BUILD_DIR", V / ".build")) / "c17lift"
+OUT = Path(os.environ.get("VERIF_HARNESS_DIR", V / "harness")) / "src" / "gen_c17.rs"
+REPO = os.environ.get("VERIF_REPO_DIR", "/repo")
 
 # template enums: name -> list of (variant, index_attr, discriminant, skip)
 TEMPLATES = {
@@ -52,7 +53,7 @@ def brace_block(s, start):
 def main():
     (WORK / "src").mkdir(parents=True, exist_ok=True)
     (WORK / "Cargo.toml").write_text('[package]\nname = "c17lift"\nversion = "0.0.0"\nedition = "2021"\n[dependencies]\n'
-                                     'parity-scale-codec = { path = "/repo", default-features = false, features = ["derive"] }\n[workspace]\n')
+                                     'parity-scale-codec = { path = "__REPO__", default-features = false, features = ["derive"] }\n[workspace]\n'.replace("__REPO__", REPO))
     src = ["use parity_scale_codec::{Encode, Decode};"]
     for name, vs in TEMPLATES.items():
         body = []
